@@ -79,3 +79,24 @@ package fasthttp
 //@   ensures[suffix] rgn(r) == rgn(path) && off(r) >= off(path) && off(r) + len(r) <= off(path) + len(path)
 //@   loop 1:
 //@     invariant rgn(path) == rgn(old(path)) && off(path) >= off(old(path)) && off(path) + len(path) == off(old(path)) + len(old(path))
+
+// bigFileReader.Close: a reader that goes back to its file's pool (Close returned nil) reads the whole file again:
+// its source is the file itself, not the range-limited reader a previous UpdateByteRange installed.
+//@ func bigFileReader.Close results err
+//@   property C24 C25
+//@   mode skeleton
+//@   ghost released int = 0
+//@   on call fsFile.decReadersCount:
+//@     nohavoc
+//@     effect released = released + 1
+//@   on call io.Seeker.Seek -> n, e:
+//@     nohavoc
+//@   on call fs.File.Close -> e:
+//@     nohavoc
+//@   on call sync.Mutex.Lock:
+//@     nohavoc
+//@   on call sync.Mutex.Unlock:
+//@     nohavoc
+//@   end
+//@   ensures[pooled-reader-is-rewound] err == nil ==> r.r == r.f
+//@   ensures[reader-count-released-once] released == 1
